@@ -26,6 +26,9 @@ type G struct {
 	pmOn   bool
 	pmSeen map[string]bool
 	pmList []pmCase
+	// PW: parsed fields of the accepted PM cases
+	pwSeen map[string]bool
+	pwList []pwCase
 }
 
 func (g *G) thorough() bool { return g.tier == "thorough" }
@@ -1465,12 +1468,12 @@ func (g *G) pCases() {
 // ---------------------------------------------------------------------------------------------
 
 func gen(seed uint64, tier string, o *hx.Out) {
-	g := &G{r: hx.NewRng(seed), o: o, tier: tier, stats: map[string]int{}, pmSeen: map[string]bool{}}
+	g := &G{r: hx.NewRng(seed), o: o, tier: tier, stats: map[string]int{}, pmSeen: map[string]bool{}, pwSeen: map[string]bool{}}
 	steps := []struct {
 		name string
 		f    func()
 	}{{"item1", g.item1}, {"item2", g.item2}, {"item2b", g.item2b}, {"item3", func() { g.pmOn = true; g.item3(); g.pmOn = false }}, {"item4", g.item4}, {"item5", g.item5}, {"item6", g.item6}, {"item7", func() { g.pmOn = true; g.item7(); g.pmOn = false }}, {"R", g.rCases},
-		{"H", g.hCases}, {"V", g.vCases}, {"P", g.pCases}, {"PM", g.pmCases}}
+		{"H", g.hCases}, {"V", g.vCases}, {"P", g.pCases}, {"PM", g.pmCases}, {"PW", g.pwCases}}
 	for _, s := range steps {
 		t0, n0 := time.Now(), g.id
 		s.f()
